@@ -52,7 +52,16 @@ def make_lifetime(spec, dims):
     lt = spec["lt"]
     cls = getattr(lm_mod, lt["cls"])
     prms = {k: make_prm(v, dims) for k, v in lt["prms"].items()}
-    return cls(dims=dims, time_letter="t", inflow_at=lt["inflow_at"], n_pts_per_interval=lt["n_pts"], **prms)
+    model = cls(dims=dims, time_letter="t", inflow_at=lt["inflow_at"], n_pts_per_interval=lt["n_pts"], **prms)
+    scramble(prms)
+    return model
+
+
+def scramble(prms):
+    """the caller goes on using its parameter arrays for something else: the model keeps what it was given"""
+    for v in prms.values():
+        if isinstance(v, FlodymArray):
+            v.values[...] = v.values * 3 + 1
 
 
 class Recorder:
